@@ -459,7 +459,21 @@ class Evaluator:
                     if txt.isdigit() and int(txt) > 0:
                         return replace(base, window=("LAST", txt), fresh=True)     # [-k:] with a positive literal
                     return replace(base, window=("LASTNEG", txt), fresh=True)      # [-n:] is the whole list for n == 0
-                return replace(base, window=("OTHER", norm(sl)), fresh=True)
+                # the same through locals / parameters bound to scalars: substitute first, then look at the arithmetic
+                txt = self.scalar_text(fi, lo, env)
+                try:
+                    pe = ast.parse(txt, mode="eval").body
+                except SyntaxError:
+                    pe = None
+                if isinstance(pe, ast.BinOp) and isinstance(pe.op, ast.Sub) and isinstance(pe.left, ast.Call) \
+                        and isinstance(pe.left.func, ast.Name) and pe.left.func.id == "len" and len(pe.left.args) == 1 \
+                        and isinstance(pe.left.args[0], ast.Name) and pe.left.args[0].id == base.src:
+                    return replace(base, window=("LAST", norm(pe.right)), fresh=True)
+                free = {x.id for x in ast.walk(pe) if isinstance(x, ast.Name)} if pe is not None else {"?"}
+                known = {base.src, "len"} | {v.text for v in env.values() if isinstance(v, Scalar)}
+                if not free <= known:
+                    raise OrdUnknown(f"{fi.name}: slice bound `{norm(sl)}` not understood")
+                return replace(base, window=("OTHER", txt + ":"), fresh=True)
             return replace(base, window=("OTHER", norm(sl)), fresh=True)
         # index
         if isinstance(sl, ast.Constant) and sl.value == 0:
